@@ -1,7 +1,7 @@
 PROPERTY = "C15"
 LEVEL = "proof"
 LEAN_MODULES = ["CifModel.Props.C15"]
-REQUIRED = ["CifModel.C15_skip_depth_balanced", "CifModel.C15_skip_depth_nonneg", "CifModel.C15_skip_depth_cif", "CifModel.C15_stop_is_last", "CifModel.C15_end_ok", "CifModel.C15_positive_aborts", "CifModel.C15_skip_opens_region", "CifModel.C15_skipped_region_silent", "CifModel.C15_syntax_only_same_log", "CifModel.C15_value_mirror", "CifModel.C15_all_continue_mirror", "CifModel.C15_all_continue_mirror_parseCB", "CifModel.C15_stored_is_structural", "CifModel.C15_result_nonneg", "CifModel.C15_positive_aborts_local",
+REQUIRED = ["CifModel.C15_skip_depth_balanced", "CifModel.C15_skip_depth_nonneg", "CifModel.C15_skip_depth_cif", "CifModel.C15_stop_is_last", "CifModel.C15_end_ok", "CifModel.C15_positive_aborts", "CifModel.C15_skip_opens_region", "CifModel.C15_skipped_region_silent", "CifModel.C15_syntax_only_same_log", "CifModel.C15_value_mirror", "CifModel.C15_all_continue_mirror", "CifModel.C15_all_continue_mirror_parseCB", "CifModel.C15_stored_is_structural", "CifModel.C15_skip_semantics_rest", "CifModel.C15_unfiltered_is_denote", "CifModel.C15_result_nonneg", "CifModel.C15_positive_aborts_local",
             "CifModel.C15_loop_start_local", "CifModel.C15_cex_loop_start_pinned", "CifModel.C15_loop_start_code_returned"]
 GEN = ["ErrCodes"]
 FAMILIES = ["pcb"]
@@ -22,23 +22,22 @@ ASSUMPTIONS = [
     "default parse options (max_frame_depth clamps to 1: one level of save frames)",
 ]
 PARTIAL = [
-    "C15_skip_semantics: proved are C15_skip_opens_region + C15_skipped_region_silent (all token sequences) and "
-    "C15_stored_is_structural (for well-formed documents and skip-only programs the parse logs and stores exactly what the "
-    "structural interpreter kDoc does on the document tree). The remaining clause 'stored = denote of the document with the "
-    "bypassed sub-trees removed' is STATED (C15_skip_semantics_rest_full over Spec.Doc.prunedDoc) but not proved; it is "
-    "kernel-checked (decide) for all single and many double deviations on two documents and checked by the strict pcb oracle",
-    "C15_syntax_only_same_log is proved for handler programs that do not look at the (NULL in syntax-only mode) handles and "
-    "under the hypothesis that the storing parse does not stop on a frame-nesting diagnostic (not well-formed under the options)",
-    "C15_all_continue_mirror is proved for every well-formed abstract document over its layout-free token sequence (tokensOf) "
-    "and any fuel >= szDoc d + 1; the parseCB corollary carries the decidable hypothesis szDoc d + 1 <= fuelFor (tokensOf d)",
+    "the document-level theorems (C15_all_continue_mirror, C15_stored_is_structural, C15_skip_semantics_rest) are about the "
+    "layout-free token sequence tokensOf d of a well-formed abstract document and, for the last two, about programs that only "
+    "continue or skip; whitespace/comment callbacks are covered by the token-sequence theorems and by the correspondence run",
+    "C15_syntax_only_same_log assumes a handler program that does not look at the (NULL in syntax-only mode) handles and that "
+    "the storing parse does not stop on a frame-nesting diagnostic (input not well-formed under the options)",
+    "duplicate block/frame codes and data names (DUP_* diagnostics) are outside the model",
 ]
-LEVEL_TEXT = ("Partial proof about the executable token-level model ParseCB.parseCB (all token sequences, all handler "
-              "programs): skip_depth balance of the value, item and packet-loop productions, non-negativity, local "
-              "abort laws at the handler call sites, the repaired loop_start defect F33 as a statement about the pinned step; the model is "
-              "tied to src/parser.c by differential execution in storing and syntax-only mode with an independent "
-              "implementation-level oracle that restates C15 (document-order mirror, same log in both modes, skip / END / "
-              "error semantics, stored content).")
-LEVEL_NOTE = ("Global C15 theorems are not proved (see partial); assurance for them is the correspondence run + oracle. "
-              "F33 fixed by 43d0bb7. Trusted: Lean kernel, model transcription (checked by correspondence), renderer/oracle in "
-              "tools/gen/pcb.py, harness.")
+LEVEL_TEXT = ("Proof about the executable token-level model ParseCB.parseCB. For all token sequences and all handler programs: "
+              "skip_depth balance of every production, an END / error answer is the last callback and determines the result, "
+              "SKIP answers open regions that are silent and store nothing, syntax-only mode = storing mode up to handles. For "
+              "every well-formed abstract document over its token sequence: all-continue callbacks = document order events and "
+              "store = denotation; for skip-only programs store = denotation of the document with the bypassed sub-trees removed. "
+              "The model is tied to src/parser.c by differential execution in storing and syntax-only mode with an independent "
+              "implementation-level oracle that restates C15.")
+LEVEL_NOTE = ("Document-level theorems are about layout-free token sequences (layout is covered by the token-sequence theorems and "
+              "the correspondence run); DUP_* diagnostics and error recovery are outside the model. F33 fixed by 43d0bb7. Trusted: "
+              "Lean kernel, model transcription (checked by correspondence), Spec/Traversal.lean (Doc, docEvents, denote, prunedDoc), "
+              "renderer/oracle in tools/gen/pcb.py, harness.")
 TECHNIQUE = "Lean 4 proof (fuel induction with a boundary invariant for skip_depth) + differential correspondence with an independent oracle"
